@@ -1867,6 +1867,9 @@ func (ex *Exec) pick(name string, n int) int {
 		ex.picks[name] = p
 		return p
 	}
+	if c, ok := ex.picks[name]; ok {
+		return c // a name denotes one choice per path
+	}
 	c := ex.chooseFree(n)
 	ex.picks[name] = c
 	return c
